@@ -153,8 +153,34 @@ def experimental():
     return yellow("(experimental)")
 
 
+_trace_seq = [0]
+
+
+def tracing():
+    """ Is the verification trace (environment variable VERIF_TLA_TRACE = path of an ndjson file) switched on? """
+    return "VERIF_TLA_TRACE" in os.environ
+
+
+def object_id(obj):
+    """ Identity of an object, as logged in the verification trace """
+    return id(obj)
+
+
+def trace(event, **fields):
+    """ Append one event to the verification trace. Does nothing unless VERIF_TLA_TRACE is set. """
+    if "VERIF_TLA_TRACE" not in os.environ:
+        return
+    import json
+    _trace_seq[0] += 1
+    record = {"seq": _trace_seq[0], "pid": os.getpid(), "ev": event}
+    record.update(fields)
+    with open(os.environ["VERIF_TLA_TRACE"], "a") as file:
+        file.write(json.dumps(record, default=str) + "\n")
+
+
 def error(message):
     """ Write error message to console and abort """
+    trace("ErrorExit", message=message[0:60])
     print("\033[1;31mError: " + message + "\033[0m")
     sys.exit(1)
 
